@@ -62,33 +62,51 @@ theorem shell_loop (cov : Bytes → Bytes → GoM Bool) (undef : D) (pol) (g : G
       rw [hd]
       simp only [List.map_cons, Chain.proofLoop]
       have hsub := toDlg_sub_ne (S := S) undef sub pol ds[k] hs
+      -- every delegation is analysed by the three tests at once (whatever their order in the loop body): only when subject and
+      -- audience are right and the command test answers true does the loop go on; every other combination throws
       by_cases c1 : ds[k].subject = sub
-      · have c1' : ¬ ((topD (toDlg undef pol ds[k])).sub ≠ some sub) := by
-          show ¬ ((toDlg undef pol ds[k]).sub ≠ some sub)
-          rw [hsub]; simpa using c1
-        by_cases c2 : ds[k].audience = iss
-        · have c2' : (topD (toDlg undef pol ds[k])).aud = iss := c2
-          have c3' : Command.covers (topD (toDlg undef pol ds[k])).cmd topCmd = true := covers_top_top
-          rw [if_neg c1', if_neg (by simpa using c2'), if_neg (by simpa using c3')]
-          cases hc : cov ds[k].command cmd with
-          | error e =>
-            simp [len, idx, h1, hltp, hlt, bind, Except.bind, pure, Except.pure, c1, c2, hc] at h
-          | ok b =>
-            cases b with
+      · by_cases c2 : ds[k].audience = iss
+        · rcases hc : cov ds[k].command cmd with e | b
+          · exfalso
+            simp [len, idx, h1, hltp, hlt, bind, Except.bind, pure, Except.pure, c1, c2, hc, throw, throwThe,
+            MonadExceptOf.throw] at h
+          · cases b with
             | false =>
+              exfalso
               simp [len, idx, h1, hltp, hlt, bind, Except.bind, pure, Except.pure, c1, c2, hc, throw, throwThe,
-                MonadExceptOf.throw] at h
+            MonadExceptOf.throw] at h
             | true =>
+              have c1' : ¬ ((topD (toDlg undef pol ds[k])).sub ≠ some sub) := by
+                show ¬ ((toDlg undef pol ds[k]).sub ≠ some sub)
+                rw [hsub]; simpa using c1
+              have c2' : (topD (toDlg undef pol ds[k])).aud = iss := c2
+              have c3' : Command.covers (topD (toDlg undef pol ds[k])).cmd topCmd = true := covers_top_top
+              rw [if_neg c1', if_neg (by simpa using c2'), if_neg (by simpa using c3')]
               simp only [len, idx, h1, decide_true, Bool.not_true, Bool.false_eq_true, ↓reduceIte,
                 Int.natCast_nonneg, Int.toNat_natCast, hltp, hlt, and_self, ↓reduceDIte, bind, Except.bind, pure,
                 Except.pure, c1, c2, bne_self_eq_false, hc, h2] at h
               exact ih (k + 1) (by omega) (by omega) _ _ h
-        · have c2'' : (ds[k].audience != iss) = true := by simpa using c2
-          simp [len, idx, h1, hltp, hlt, bind, Except.bind, pure, Except.pure, c1, c2'', throw, throwThe,
+        · exfalso
+          rcases hc : cov ds[k].command cmd with e | b
+          · simp [len, idx, h1, hltp, hlt, bind, Except.bind, pure, Except.pure, c1, c2, hc, throw, throwThe,
             MonadExceptOf.throw] at h
-      · have c1'' : (ds[k].subject != sub) = true := by simpa using c1
-        simp [len, idx, h1, hltp, hlt, bind, Except.bind, pure, Except.pure, c1'', throw, throwThe,
-          MonadExceptOf.throw] at h
+          · cases b <;>
+            simp [len, idx, h1, hltp, hlt, bind, Except.bind, pure, Except.pure, c1, c2, hc, throw, throwThe,
+            MonadExceptOf.throw] at h
+      · exfalso
+        by_cases c2 : ds[k].audience = iss
+        · rcases hc : cov ds[k].command cmd with e | b
+          · simp [len, idx, h1, hltp, hlt, bind, Except.bind, pure, Except.pure, c1, c2, hc, throw, throwThe,
+            MonadExceptOf.throw] at h
+          · cases b <;>
+            simp [len, idx, h1, hltp, hlt, bind, Except.bind, pure, Except.pure, c1, c2, hc, throw, throwThe,
+            MonadExceptOf.throw] at h
+        · rcases hc : cov ds[k].command cmd with e | b
+          · simp [len, idx, h1, hltp, hlt, bind, Except.bind, pure, Except.pure, c1, c2, hc, throw, throwThe,
+            MonadExceptOf.throw] at h
+          · cases b <;>
+            simp [len, idx, h1, hltp, hlt, bind, Except.bind, pure, Except.pure, c1, c2, hc, throw, throwThe,
+            MonadExceptOf.throw] at h
     · have : k = ds.length := by omega
       subst this
       have h1 : ¬ (((ds.length : Nat) : Int) < (g.proof.length : Int)) := by omega
